@@ -23,7 +23,7 @@ def c11_struct(tier="quick", seed=0):
     src = _S_.unparse(tj)
     order = [src.find("isinstance(value, bool)"), src.find("isinstance(value, (int, float))")]
     out.append(ob("C11.struct.to_js-bool-before-int", 0 <= order[0] < order[1], "K3", "bool is tested before int (bool is an int subtype)"))
-    out.append(ob("C11.struct.to_js-fresh-containers", "arr = JSArray()" in src and "obj = JSObject()" in src and ("obj.set(str(k), self._to_js(v))" in src or "obj.set(str(k), self._to_js(v, _memo))" in src), "K3",
+    out.append(ob("C11.struct.to_js-fresh-containers", "arr = JSArray()" in src and ("obj = JSObject()" in src or "obj = JSObject(self._object_prototype)" in src) and ("obj.set(str(k), self._to_js(v))" in src or "obj.set(str(k), self._to_js(v, _memo))" in src), "K3",
                   "lists/dicts are rebuilt into fresh arrays/objects, keys through str()"))
     tp = _S_.unparse(S.fn("microjs.context", "Context._to_python"))
     out.append(ob("C11.struct.to_python-own-data-only", "value._properties.items()" in tp and "_getters" not in tp, "K3", "objects convert to dicts of own data properties"))
